@@ -91,9 +91,18 @@ static void judge(const Cfg &C, const World &W)
 		if (y.empty()) y = P.y;
 		else if (P.y != y) R.viol(kb + "public-key-differs", "honest parties hold different y: " + y + " vs " + P.y + " (party " + str(H[x]) + ")", id);
 	}
+	// known finding dkg-qual-erased (root cause observed at an honest party, see MarkerBuf): in the key's DKG it spoils y for
+	// the rest of the world, in Sign's helper a_dkg it spoils r of that signature
+	bool erased_key = false;
+	for (size_t x = 0; x < H.size(); x++) if (W.P[H[x]].erased_keygen) erased_key = true;
 	for (size_t k = 0; k < C.msgs.size(); k++)
 	{
 		std::map<std::pair<std::string, std::string>, int> sigs;
+		bool erased_sign = false;
+		for (size_t x = 0; x < H.size(); x++) if (W.P[H[x]].sig[k].ran && W.P[H[x]].sig[k].erased) erased_sign = true;
+		const bool rootcause = (C.scheme == DSS) && (erased_key || erased_sign);
+		const std::string kroot = std::string("tsig/dss/dkg-qual-erased/") + (erased_key ? "generate" : "sign");
+		if (rootcause) R.counters["signing_runs_with_dkg_qual_erased"]++;
 		for (size_t x = 0; x < H.size(); x++)
 		{
 			const Sig &s = W.P[H[x]].sig[k];
@@ -106,8 +115,7 @@ static void judge(const Cfg &C, const World &W)
 			}
 			any = true;
 			R.counters["honest_sign_completed"]++;
-			if (!s.libver)
-				R.viol(kb + "sign-true-verify-false", "Sign #" + str(k) + " returned true at honest party " + str(H[x]) + " but the library's own Verify rejects (" +
+XX + str(k) + " returned true at honest party " + str(H[x]) + " but the library's own Verify rejects (" +
 					s.a + "," + s.b + ") for m=" + C.msgs[k] + " y=" + y, id);
 			sigs[std::make_pair(s.a, s.b)] = H[x];
 		}
@@ -121,7 +129,8 @@ static void judge(const Cfg &C, const World &W)
 			a.push_back(dec(G.p)), a.push_back(dec(G.q)), a.push_back(dec(G.g)), a.push_back(y), a.push_back(C.msgs[k]);
 			a.push_back(it->first.first), a.push_back(it->first.second);
 			std::string kind = C.scheme == NTS ? "tsig.schnorr" : "tsig.dsa";
-			if (C.beh.kind != HONEST && !C.F.empty()) kind += "." + C.beh.kname();   // finding keys pyref/<kind> stay specific to the deviation class
+			if (rootcause) kind += ".dkg-qual-erased";
+			else if (C.beh.kind != HONEST && !C.F.empty()) kind += "." + C.beh.kname();   // finding keys pyref/<kind> stay specific
 			ref_line(kind, a, "1", id + "#sign" + str(k));
 			RP->counters["signatures_sent_to_reference"]++;
 		}
@@ -380,7 +389,7 @@ static void family_dss(const Grp *G, bool thorough)
 				if (v == 1 && !(tamper_all && lastF)) continue;
 				for (unsigned pos = 0; pos < nb; pos++)
 				{
-					bool sel = tamper_all ? single : (thorough ? lastF : ((single && pos + 2 >= nb) || (lastF && pos % 4 == 0)));
+					bool sel = tamper_all ? single : (thorough ? lastF : ((single && pos + 2 >= nb) || (lastF && (pos % 4 == 0 || pos == 13))));
 					if (!sel) continue;
 					E.beh = Beh(), E.beh.kind = TAMPER_B, E.beh.pos = (int)pos, E.beh.variant = v;
 					consider(E);
